@@ -33,6 +33,12 @@ Configs ==
     \* Prev is whatever was there: a 0-byte placeholder, an unrelated file, a read-only archive, a directory
     \cup {[op |-> "build", ver |-> v, prevk |-> pk, opt |-> "plain"] : v \in Vers, pk \in {"empty", "garbage", "readonly", "dir"}}
     \cup {[op |-> "compact", ver |-> v, prevk |-> "readonly", opt |-> "plain"] : v \in {1, 4}}
+    \* every other public operation that produces an archive file at a caller-given path:
+    \*   rebuild_archive(source, target), OpenOptions::create (empty archive), the C API's SFileCreateArchive (V2)
+    \cup {[op |-> "rebuild", ver |-> v, prevk |-> pk, opt |-> "plain"] : v \in Vers, pk \in {"absent", "present"}}
+    \cup {[op |-> "rebuild", ver |-> 1, prevk |-> pk, opt |-> "plain"] : pk \in {"empty", "garbage", "dir"}}
+    \cup {[op |-> "create", ver |-> v, prevk |-> pk, opt |-> "plain"] : v \in {1, 4}, pk \in {"absent", "present", "empty"}}
+    \cup {[op |-> "ffi_create", ver |-> 2, prevk |-> pk, opt |-> "plain"] : pk \in {"absent", "present", "garbage"}}
     \cup {[op |-> "compact", ver |-> v, prevk |-> "present", opt |-> o] : v \in Vers, o \in Opts}
     \* previous archive produced by an in-place session (V1/V2: remove; grow = relocated tables; add/remove/rename)
     \cup {[op |-> "compact", ver |-> v, prevk |-> pk, opt |-> "plain"] : v \in {1, 2}, pk \in {"edited", "grown", "mixed"}}
